@@ -44,6 +44,17 @@ POOL = {
     # f64 bit patterns: +0, -0, 1.0, -1.5, inf, two NaNs, subnormal
     'f64': [0, 0x8000000000000000, 0x3ff0000000000000, 0xbff8000000000000, 0x7ff0000000000000,
             0x7ff8000000000000, 0x7ff8000000000001, 1],
+    # two's-complement bit patterns
+    'i8': [0, 1, 0x7f, 0x80, 0xff, 0x81],
+    'i64': [0, 1, 2**63 - 1, 2**63, 2**64 - 1, 2**32, 2**64 - 2**32],
+    'u128': [0, 1, 2**64 - 1, 2**64, 2**127, 2**128 - 1, 2**100 + 12345],
+    'i128': [0, 1, 2**127 - 1, 2**127, 2**128 - 1, 2**64],
+    'wi32': [0, 1, 2**31 - 1, 2**31, 2**32 - 1],
+    'bool': [0, 1],
+    # scalar values: ASCII, 2-, 3-, 4-byte, NUL, the neighbours of the surrogate gap, the last one
+    'char': [0x61, 0xe9, 0x20ac, 0x1f600, 0, 0xd7ff, 0xe000, 0x10ffff, 0x7f, 0x80],
+    # f32 bit patterns: +0, -0, 1.0, -inf, NaN, another NaN, subnormal
+    'f32': [0, 0x80000000, 0x3f800000, 0xff800000, 0x7fc00000, 0x7fc00001, 1],
 }
 STRINGS = ['', 'a', 'ab', 'abc', 'b', 'ü', '€x', '😀', 'é', 'ñandú', 'a\u0000b', 'zz' * 20,
            '߿ࠀ', '￿\U00010000', 'ß€😀']
